@@ -460,4 +460,85 @@ theorem spare_capacity_siblings_clobber :
     let s2 := applyOp fixed s1.1 spareParent.2 (.derive 0 [17] none)
     obs s2.1.heap s1.2 ≠ obs s1.1.heap s1.2 := by decide
 
+/-! ### type-local reference state: `PartialExceptions`, option lists (`LSchema`, `LOp`)
+
+  The frame theorems extended to the reference-typed fields that object / struct / union types keep outside
+  `ZodTypeInternals`: every chaining call either copies the reference (no write), drops it, or points the result at a
+  key set it allocated itself.  `exceptions_in_place_mutates_receiver`: the one excluded shape — editing the receiver's
+  key set in place — changes the receiver. -/
+
+def WfL (σ : Store) (x : LSchema) : Prop := WfS σ x.s ∧ ∀ l ∈ optLoc x.exc, l < σ.next
+
+/-- **obsL_frame**: an extension that writes nothing below the old allocation pointer leaves the extended observation
+    (common part and type-local key set) of every allocated schema as it was. -/
+theorem obsL_frame {σ σ' : Store} (x : LSchema) (hw : WfL σ x) (he : ExtFrom σ.next σ σ') :
+    obsL σ'.heap x = obsL σ.heap x := by
+  simp only [obsL, obs_frame x.s hw.1 he]
+  congr 1
+  exact readVals_congr x.exc (fun l hl => he.2 l (hw.2 l hl))
+
+theorem wfl_frame {σ σ' : Store} (x : LSchema) (hw : WfL σ x) (he : ExtFrom σ.next σ σ') : WfL σ' x :=
+  ⟨wfs_frame x.s hw.1 he, fun l hl => Nat.lt_of_lt_of_le (hw.2 l hl) he.1⟩
+
+def _root_.Gozod.Store.LOp.ok (o : LOp) : Prop := Op.ok o.base ∧ o.base.isMetaSelf = false ∧ o.isInPlace = false
+
+/-- **applyLOp_spec**: every type-local behaviour of the code writes only fresh locations; the result is well-formed
+    and new. -/
+theorem applyLOp_spec (cfg : Cfg) (hcfg : cfg.cloneBagAlways = true) (σ : Store) (recv : LSchema) (o : LOp)
+    (hc : BagClosed σ) (hw : WfL σ recv) (hok : o.ok) :
+    ExtFrom σ.next σ (applyLOp cfg σ recv o).1 ∧ BagClosed (applyLOp cfg σ recv o).1 ∧
+    WfL (applyLOp cfg σ recv o).1 (applyLOp cfg σ recv o).2 ∧ σ.next ≤ (applyLOp cfg σ recv o).2.s.self := by
+  cases o with
+  | inPlace op k => exact absurd hok.2.2 (by simp [LOp.isInPlace])
+  | share op =>
+    obtain ⟨he, hb, hws, hs⟩ := applyOp_spec cfg hcfg σ recv.s op hc hw.1 hok.1 hok.2.1
+    exact ⟨he, hb, ⟨hws, fun l hl => Nat.lt_of_lt_of_le (hw.2 l hl) he.1⟩, hs⟩
+  | drop op =>
+    obtain ⟨he, hb, hws, hs⟩ := applyOp_spec cfg hcfg σ recv.s op hc hw.1 hok.1 hok.2.1
+    exact ⟨he, hb, ⟨hws, fun l hl => by simp [applyLOp, optLoc] at hl⟩, hs⟩
+  | keyed op ks =>
+    obtain ⟨he, hb, hws, hs⟩ := applyOp_spec cfg hcfg σ recv.s op hc hw.1 hok.1 hok.2.1
+    simp only [applyLOp]
+    have ha : ExtFrom σ.next (applyOp cfg σ recv.s op).1 (alloc (applyOp cfg σ recv.s op).1 (.vals ks)).1 :=
+      alloc_ext σ.next _ _ he.1
+    have ha' : ExtFrom (applyOp cfg σ recv.s op).1.next (applyOp cfg σ recv.s op).1
+        (alloc (applyOp cfg σ recv.s op).1 (.vals ks)).1 := alloc_ext _ _ _ (Nat.le_refl _)
+    refine ⟨he.trans ha, bagClosed_alloc _ _ hb (cellOk_vals _ _), ⟨wfs_frame _ hws ha', ?_⟩, hs⟩
+    intro l hl
+    simp only [optLoc, List.mem_singleton] at hl
+    subst hl
+    simp [alloc]
+
+/-- **c08_local_step**: a chaining call of any of the code's type-local behaviours leaves the extended observation of
+    every live schema — receiver, ancestors, siblings — unchanged, and its result is a new schema. -/
+theorem c08_local_step (cfg : Cfg) (hcfg : cfg.cloneBagAlways = true) (σ : Store) (live : List LSchema)
+    (recv : LSchema) (o : LOp) (hc : BagClosed σ) (hl : ∀ x ∈ live, WfL σ x) (hr : recv ∈ live) (hok : o.ok) :
+    (∀ x ∈ live, obsL (applyLOp cfg σ recv o).1.heap x = obsL σ.heap x) ∧
+    (∀ x ∈ live, WfL (applyLOp cfg σ recv o).1 x) ∧ WfL (applyLOp cfg σ recv o).1 (applyLOp cfg σ recv o).2 ∧
+    BagClosed (applyLOp cfg σ recv o).1 ∧ (∀ x ∈ live, x.s.self ≠ (applyLOp cfg σ recv o).2.s.self) := by
+  obtain ⟨he, hb, hw, hs⟩ := applyLOp_spec cfg hcfg σ recv o hc (hl recv hr) hok
+  refine ⟨fun x hx => obsL_frame x (hl x hx) he, fun x hx => wfl_frame x (hl x hx) he, hw, hb, fun x hx e => ?_⟩
+  have : x.s.self < σ.next := (hl x hx).1.1 _ (by simp [locs, direct])
+  rw [e] at this
+  exact Nat.not_le_of_lt this hs
+
+/-- `Object(shape).Partial(["a"])`-like schema: common part of `baseRecord`, key set {1, 2} at a fresh location. -/
+def withExceptions : Store × LSchema :=
+  applyLOp fixed baseRecord.1 ⟨baseRecord.2, none⟩ (.keyed (.derive 1 [] none) [1, 2])
+
+/-- non-vacuity: the hypotheses of `c08_local_step` hold for a keyed call on that schema -/
+example : (LOp.keyed (.derive 1 [] none) [3]).ok := ⟨trivial, rfl, rfl⟩
+
+/-- on the code's behaviours the receiver keeps its key set (instance of `c08_local_step`) -/
+example :
+    obsL (applyLOp fixed withExceptions.1 withExceptions.2 (.keyed (.derive 2 [] none) [1])).1.heap withExceptions.2
+      = obsL withExceptions.1.heap withExceptions.2 := by decide
+
+/-- **Witness**: a call that deletes a key from the receiver's key set in place (instead of building its own)
+    changes the receiver — the shape of defect the extended frame theorem excludes. -/
+theorem exceptions_in_place_mutates_receiver :
+    (obsL (applyLOp fixed withExceptions.1 withExceptions.2 (.inPlace (.derive 2 [] none) 1)).1.heap withExceptions.2).exc
+      = some [2] ∧
+    (obsL withExceptions.1.heap withExceptions.2).exc = some [1, 2] := by decide
+
 end Gozod.C08
